@@ -435,7 +435,7 @@ fn opt_allow(rl: &mut Option<RateLimiter>, now: Instant) -> (res: bool)
                       ("C04-C05-C06-C13-draw-effect",
                        "draw_effect(old(self).draw_target, final(self).draw_target, force_draw || old(self).state.finished(), now, "
                        "(if old(self).state.status is DoneHidden { Seq::<LineType>::empty() } else { match old(self).draw_target.own() { Some(x) => fs_lines(old(self).style, old(self).state, x.0.w as u16), None => Seq::<LineType>::empty() } }), r)",
-                       ["C02", "C04", "C05", "C06", "C13"]),   # C02: a member's stored rendering is what its last draw request produced
+                       ["C01", "C02", "C03", "C04", "C05", "C06", "C13"]),   # the one place where a frame (printed lines ++ rendering) leaves the bar
                   ])),
         Fn(**dict(K.BAR_UPDATE_AND_DRAW, rewrites=[K.AORD(1), K.TRACKERS_TICK],
                   proofs=[(r"let _ = self\.draw\(false, now\);", "at", """let ghost a = self.draw_target; let ghost fin = self.state.finished();
@@ -475,7 +475,7 @@ fn opt_allow(rl: &mut Option<RateLimiter>, now: Instant) -> (res: bool)
                      Rw("R2", r"let state = state\.write\(\)\.unwrap\(\);", "let state = state; let idx = *idx;")],
            ensures=[("own-untouched", "!(old(self).kind is Multi) ==> *final(self) == *old(self)"),
                     ("C06-C18-disconnect", "final(self).same_kind(*old(self)) && (old(self).hidden() ==> final(self).ops() == old(self).ops())", ["C06", "C18"])]),
-        Fn("src/state.rs", "BarState", "println", requires=K.BAR_REQ,
+        Fn("src/state.rs", "BarState", "println", requires=K.BAR_REQ, also=["C01", "C03"],
            rewrites=[Rw("R5", r"msg\.lines\(\)\.map\(\|l\| LineType::Text\(Into::into\(l\)\)\)\.collect\(\)", "text_lines(msg)"),
                      Rw("R16", r"draw_state\.lines\.push", "draw_state.state.lines.push"),
                      Rw("R5", r"draw_state\.lines\.extend\(lines\)", "vec_extend(&mut draw_state.state.lines, lines)"),
